@@ -133,36 +133,135 @@ def parse_kani(out):
     return res
 
 
-def kani_cmd(quals, target, jobs, timeout_s, cbmc_args, playback=False, stubbing=False):
-    cmd = ["cargo", "kani", "--target-dir", target, "--exact"]
-    for q in quals:
-        cmd += ["--harness", q]
-    cmd += ["--no-assertion-reach-checks", "-Z", "unstable-options",
-            "--harness-timeout", f"{int(timeout_s)}s"]
+def slot_dir(slot):
+    return os.path.join(BUILD, f"kani-w{slot}")
+
+
+def clean_kani_out(target):
+    """each harness selection gets its own build dir under .../build/cao-verif/<hash>; drop old ones"""
+    d = os.path.join(target, "kani", "x86_64-unknown-linux-gnu", "debug", "build", "cao-verif")
+    if os.path.isdir(d):
+        for x in os.listdir(d):
+            shutil.rmtree(os.path.join(d, x), ignore_errors=True)
+
+
+def resolve_unwindset(h, target, stubbing=False):
+    """Limits are written against demangled function paths (regex, optionally '#<loop index>');
+    the mangled ids CBMC wants are read from the pretty_name_map.json that code generation leaves
+    behind for this harness. -> (cbmc args, log text)"""
+    want = list((h.get("limits") or {}).items())
+    if not want:
+        return [], ""
+    cmd = ["cargo", "kani", "--target-dir", target, "--exact", "--harness", h["qual"],
+           "--only-codegen", "-Z", "unstable-options"]
     if stubbing:
         cmd += ["-Z", "stubbing"]
-    if playback:
-        cmd += ["-Z", "concrete-playback", "--concrete-playback=print"]
-    else:
-        cmd += ["-j", str(jobs), "--output-format", "terse"]
+    rc, out, dt = sh(cmd, timeout=1800, cwd=HARNESS_DIR)
+    text = f"$ {' '.join(cmd)}\n[rc={rc} {dt:.1f}s]\n{out[-3000:]}\n"
+    import glob
+    entries = {}
+    for f in glob.glob(os.path.join(target, "kani", "*", "debug", "build", "cao-verif", "*", "out",
+                                    "*.pretty_name_map.json")):
+        try:
+            m = json.load(open(f))
+        except Exception:
+            continue
+        for mangled, pretty in m.items():
+            if not pretty:
+                continue
+            for pat, lim in want:
+                loop = None
+                p = pat
+                if "#" in pat:
+                    p, loop = pat.rsplit("#", 1)
+                if re.search(p, pretty):
+                    key = mangled if loop is None else f"{mangled}.{loop}"
+                    entries[key] = max(entries.get(key, 0), lim)
+    text += "unwindset: " + json.dumps(entries, indent=1) + "\n"
+    if not entries:
+        return [], text
+    return ["--unwindset", ",".join(f"{k}:{v}" for k, v in sorted(entries.items()))], text
+
+
+def run_one(h, slot, tier_cap, mem_kb):
+    """one harness = one cargo-kani process in its own target dir -> (result dict, log text)"""
+    target = slot_dir(slot)
+    clean_kani_out(target)
+    stub = bool(h.get("stubbing"))
+    uw, text = resolve_unwindset(h, target, stub)
+    cbmc_args = list(h.get("cbmc_args") or []) + uw
+    tmo = h.get("timeout", tier_cap)
+    cmd = ["cargo", "kani", "--target-dir", target, "--exact", "--harness", h["qual"],
+           "--no-assertion-reach-checks", "-Z", "unstable-options",
+           "--harness-timeout", f"{int(tmo)}s",
+           "-Z", "concrete-playback", "--concrete-playback=print"]
+    if stub:
+        cmd += ["-Z", "stubbing"]
     if cbmc_args:
-        cmd += ["--cbmc-args"] + list(cbmc_args)
-    return cmd
-
-
-def run_group(hs, jobs, tier_cap, logf):
-    """run one cargo-kani invocation over harness specs that share cbmc args"""
-    quals = [h["qual"] for h in hs]
-    tmo = max(h.get("timeout", tier_cap) for h in hs)
-    cmd = kani_cmd(quals, os.path.join(BUILD, "kani"), jobs, tmo, hs[0].get("cbmc_args"),
-                   stubbing=any(h.get("stubbing") for h in hs))
-    wall_cap = 600 + tmo * (1 + len(hs) // max(1, jobs))
-    rc, out, dt = sh(["bash", "-c", "ulimit -v 50000000; exec \"$@\"", "x"] + cmd,
-                     timeout=wall_cap, cwd=HARNESS_DIR)
-    logf.write(f"$ {' '.join(cmd)}\n[rc={rc} {dt:.1f}s]\n{out}\n")
+        cmd += ["--cbmc-args"] + cbmc_args
+    rc, out, dt = sh(["bash", "-c", f"ulimit -v {mem_kb}; exec \"$@\"", "x"] + cmd,
+                     timeout=tmo + 900, cwd=HARNESS_DIR)
+    slim = "\n".join(l for l in out.splitlines()
+                     if not l.startswith(("Unwinding ", "Not unwinding ")))
+    text += f"$ {' '.join(cmd)}\n[rc={rc} {dt:.1f}s]\n{slim}\n"
     res = parse_kani(out)
-    build_failed = ("error: could not compile" in out) or ("error[E" in out and not res)
-    return res, build_failed, rc, dt, out
+    r = res.get(h["qual"])
+    if r is None:
+        r = dict(status="MISSING", failed=[], checks=0, nfailed=0, time=0.0,
+                 cover_sat=0, cover_total=0, raw=[])
+        if "error: could not compile" in out or "error[E" in out:
+            r["status"] = "BUILD-FAILED"
+            r["tail"] = "\n".join(out.splitlines()[-30:])
+    if rc == -9:
+        r["status"] = "TIMEOUT"
+    if r["status"] == "FAILED" and not r["failed"]:
+        r["status"] = "ERROR"  # CBMC died (status 1, out of memory, ...): never a verdict
+    m = re.search(r"size of program expression: (\d+) steps", out)
+    r["steps"] = int(m.group(1)) if m else 0
+    r["solver_s"] = round(sum(float(x) for x in re.findall(r"Runtime decision procedure: ([0-9.]+)s", out)), 2)
+    r["symex_s"] = round(sum(float(x) for x in re.findall(r"Runtime Symex: ([0-9.]+)s", out)), 2)
+    r["playback"] = extract_playback(out)
+    r["wall"] = round(dt, 1)
+    r.pop("raw", None)
+    clean_kani_out(target)
+    return r, text
+
+
+def run_all(hs, jobs, tier_cap, logf, mem_kb):
+    import queue
+    import threading
+    q = queue.Queue()
+    # longest first
+    for h in sorted(hs, key=lambda h: -h.get("cost", 1)):
+        q.put(h)
+    results = {}
+    lock = threading.Lock()
+
+    def worker(slot):
+        while True:
+            try:
+                h = q.get_nowait()
+            except queue.Empty:
+                return
+            try:
+                r, text = run_one(h, slot, tier_cap, mem_kb)
+            except Exception as e:  # noqa
+                r, text = dict(status="ERROR", failed=[], checks=0, nfailed=0, time=0.0, cover_sat=0,
+                               cover_total=0, steps=0, solver_s=0, symex_s=0, playback=[], wall=0,
+                               tail=repr(e)), repr(e)
+            with lock:
+                results[h["name"]] = r
+                logf.write(f"===== {h['name']} (slot {slot})\n{text}\n")
+                logf.flush()
+                log(f"  {h['name']}: {r['status']} checks={r['checks']} "
+                    f"t={r.get('wall', 0)}s" + (f" failed={r['failed'][:3]}" if r["failed"] else ""))
+
+    ths = [threading.Thread(target=worker, args=(i,)) for i in range(min(jobs, len(hs)))]
+    for t in ths:
+        t.start()
+    for t in ths:
+        t.join()
+    return results
 
 
 PLAY_VEC = re.compile(r"^\s*vec!\[([0-9, ]*)\],?\s*$")
@@ -277,7 +376,7 @@ def main():
     ap.add_argument("--tier", default=os.environ.get("VERIF_TIER", "quick"),
                     choices=["quick", "thorough"])
     ap.add_argument("--only", default=None)
-    ap.add_argument("--jobs", type=int, default=int(os.environ.get("VERIF_JOBS", "12")))
+    ap.add_argument("--jobs", type=int, default=int(os.environ.get("VERIF_JOBS", "5")))
     ap.add_argument("--replay", default=None)
     ap.add_argument("--no-evidence", action="store_true")
     args = ap.parse_args()
@@ -306,25 +405,21 @@ def main():
     head, dirty = repo_state()
     log(f"[{prop}] tier={args.tier} seed={seed} harnesses={len(hs)} repo={head[:10]}{'+dirty' if dirty else ''}")
 
-    # group by cbmc args
-    groups = {}
-    for h in hs:
-        key = (tuple(h.get("cbmc_args") or ()), bool(h.get("stubbing")))
-        groups.setdefault(key, []).append(h)
-    results = {}
+    mem_kb = int(P.get("mem_gb", 14) * 1024 * 1024)
+    jobs = min(args.jobs, P.get("jobs", args.jobs))
+    light = [h for h in hs if not h.get("heavy")]
+    heavy = [h for h in hs if h.get("heavy")]
+    results = run_all(light, jobs, tier_cap, logf, mem_kb) if light else {}
+    if heavy:
+        # memory-hungry harnesses: few at a time, each with a large address-space limit
+        results.update(run_all(heavy, min(2, jobs), tier_cap, logf, 28 * 1024 * 1024))
     machinery = []
-    for key, gh in groups.items():
-        res, build_failed, rc, dt, out = run_group(gh, args.jobs, tier_cap, logf)
-        if build_failed:
-            tail = "\n".join(out.splitlines()[-40:])
-            log(f"[{prop}] BUILD FAILED (harness crate does not compile against /repo):\n{tail}")
+    for h in hs:
+        if results[h["name"]]["status"] == "BUILD-FAILED":
+            log(f"[{prop}] BUILD FAILED (harness crate does not compile against /repo):\n"
+                + results[h["name"]].get("tail", ""))
             machinery.append("build failed")
-        for h in gh:
-            r = res.get(h["qual"])
-            if r is None:
-                r = dict(status="MISSING", failed=[], checks=0, nfailed=0, time=0.0,
-                         cover_sat=0, cover_total=0, raw=[])
-            results[h["name"]] = r
+            break
 
     violations = []      # (harness, label, replay path)
     known_hits = []      # (finding, harness, label)
@@ -337,7 +432,9 @@ def main():
         r = results[h["name"]]
         st = r["status"]
         entry = dict(harness=h["name"], bounds=h.get("bounds", ""), what=h.get("what", ""),
-                     status=st, checks=r["checks"], solver_wall_s=round(r["time"], 2))
+                     status=st, checks=r["checks"], verification_s=round(r["time"], 2),
+                     program_steps=r.get("steps", 0), solver_s=r.get("solver_s", 0),
+                     symex_s=r.get("symex_s", 0))
         if st == "SUCCESSFUL":
             if r["cover_total"] > 0 and r["cover_sat"] < r["cover_total"]:
                 undecided.append((h["name"], "vacuous: cover witness unreachable"))
@@ -362,7 +459,7 @@ def main():
                 for l in unknown:
                     violations.append((h["name"], l, confirmed_labels[l]))
             else:
-                rep = confirm(prop, h, unknown, logf, tier_cap)
+                rep = confirm(prop, h, unknown, logf, tier_cap, r)
                 for (lbl, path) in rep["confirmed"]:
                     confirmed_labels.setdefault(lbl, path)
                 replays_done += rep["replays"]
@@ -398,7 +495,8 @@ def main():
         property_id=prop, tier=args.tier, seed=seed, level="model_checking",
         coverage=dict(
             states=max(1, total_checks),
-            transitions=max(1, steps),
+            transitions=max(1, sum(results[h["name"]].get("steps", 0) for h in hs)),
+            symbolic_operations=steps,
             traces_validated_against_impl=replays_done,
             samples=samples,
             evaluations=len(hs),
@@ -406,7 +504,7 @@ def main():
             obligations=len(hs), discharged=discharged,
             rule=("one obligation per Kani proof harness (concrete shape/capacity/kind tuple, "
                   "symbolic data); 'states' = CBMC verification conditions decided, 'transitions' = "
-                  "symbolic operations/instruction steps executed by the harnesses; a harness counts "
+                  "SSA program steps of the unwound programs CBMC encoded; a harness counts "
                   "as discharged only if CBMC returned SUCCESSFUL with every unwinding assertion "
                   "proved and its reachability witness (kani::cover at the last line) satisfied"),
             explanation=P.get("explanation", ""),
@@ -437,16 +535,10 @@ def main():
     return 0
 
 
-def confirm(prop, h, labels, logf, tier_cap):
-    """re-run one failed harness with concrete playback, replay natively"""
+def confirm(prop, h, labels, logf, tier_cap, r=None):
+    """native replay (dev + release) of the concrete values Kani printed for each failed check"""
     out_rep = dict(labels=labels, confirmed=[], replays=0, detail=[])
-    cmd = kani_cmd([h["qual"]], os.path.join(BUILD, "kani-pb"), 1,
-                   h.get("timeout", tier_cap), h.get("cbmc_args"), playback=True,
-                   stubbing=h.get("stubbing"))
-    rc, out, dt = sh(["bash", "-c", "ulimit -v 50000000; exec \"$@\"", "x"] + cmd,
-                     timeout=h.get("timeout", tier_cap) + 900, cwd=HARNESS_DIR)
-    logf.write(f"$ {' '.join(cmd)}\n[rc={rc} {dt:.1f}s]\n{out}\n")
-    tests = extract_playback(out)
+    tests = (r or {}).get("playback") or []
     os.makedirs(os.path.join(ROOT, "replays", prop), exist_ok=True)
     for lbl in labels:
         vals = None
@@ -454,20 +546,16 @@ def confirm(prop, h, labels, logf, tier_cap):
             if desc and desc[0] != "cover" and (desc[1] == lbl or lbl in desc[1] or desc[1] in lbl):
                 vals = v
                 break
-        if vals is None and is_unwind_label(lbl):
-            # no trace is produced for an unwinding assertion; replay the cover witness is useless.
-            out_rep["detail"].append(dict(label=lbl, outcome="no-playback-values"))
-            continue
         if vals is None:
             out_rep["detail"].append(dict(label=lbl, outcome="no-playback-values"))
             continue
-        nat = native_replay(h["name"], vals, logf)
+        nat = native_replay(h["name"], vals, logf, watchdog=h.get("replay_watchdog", 20))
         out_rep["replays"] += 1
         ok = False
         for prof, (outcome, msg) in nat.items():
             if outcome == "reproduced":
                 ok = True
-            if outcome in ("hang",) and is_unwind_label(lbl):
+            if outcome == "hang" and (is_unwind_label(lbl) or h.get("hang_is_violation")):
                 ok = True
             if outcome == "crash":
                 ok = True
